@@ -49,6 +49,35 @@ CLAIMS["C18"] = claim("lean-model + harness seq (counting StatsTracker)",
     "Backend counters only in this check's theorem file so far; Failover counters are compared by the scheduler engine.",
     "Lean 4 proof (additivity over histories) + model/implementation correspondence", "DESIGN.md §6 C18")
 
+CLAIMS["C13"] = claim("lean-model + harness xfer",
+    "Lean 4 theorems: restoring ANY permutation of a store's entries into an empty cache of the same family reproduces it slot by slot "
+    "(C13_roundtrip), same entries per key and under Walk, relays through several instances (C13_chain), cross-family under an injective "
+    "target slot function. Correspondence: real Dump/Restore across all five source/target pairings, sizes 0..300 (1500 thorough), nil/zero/"
+    "populated values, mixed expiry, chains of three hops, model state compared with the restored cache.",
+    "encoding/gob modelled as identity on records decoded into fresh variables (the harness is what notices reuse of a decode target).",
+    "Lean 4 proof (all permutations, all stores) + model/implementation correspondence", "DESIGN.md §6 C13")
+CLAIMS["C14"] = claim("lean-model + harness xfer (in-process RoundTripper, fresh child processes for the hash)",
+    "Lean 4 theorems: the types hash depends only on the SET of registered types for every fingerprint function (C14_hash_set_invariant, "
+    "via XOR permutation invariance), changes when a new type with non-zero fingerprint is added, re-registration is idempotent; import is "
+    "exact on matching hash/name and a no-op otherwise. Correspondence: real Export/Import between HTTPTransfer instances with hash mismatch, "
+    "unknown names, truncated/failing bodies; registration sequences evaluated in fresh processes against the model's XOR.",
+    "net/http, gob, reflect trusted; the real FNV fingerprint is observed per type in a fresh process, not modelled.",
+    "Lean 4 proof (BitVec xor algebra, List.Perm) + model/implementation correspondence", "DESIGN.md §6 C14")
+CLAIMS["C15"] = claim("lean-model + harness inval",
+    "Lean 4 theorems about a model that follows the Go control flow literally (cut, dedup, per-deleter delete, put-back): for every index, "
+    "label list (repeats included), visiting order of names and fault oracle — precision, completeness on success, on failure every labelled key "
+    "is gone or still indexed (C15_invalidate), and a fault-free retry completes (C15_retry_completes). Correspondence: real InvalidationIndex over "
+    "real caches with a deleter failure at every position, recover(), retries, AddLabels from inside a failing delete; index and caches compared "
+    "with the model after every operation.",
+    "Truthful deleters apart from injected failures; concurrency of AddLabels with an invalidation is exercised through re-entrancy only.",
+    "Lean 4 proof (nested structural inductions over the control flow) + model/implementation correspondence", "DESIGN.md §6 C15")
+CLAIMS["C17"] = claim("lean-model + harness inval",
+    "Lean 4 theorems: accept/reject rule, callbacks 0..n-1 exactly once in order, rejected calls change nothing, and over every schedule the "
+    "mutex allows consecutive accepted stamps are at least SkipInterval apart (C17_run_spacing, induction). Correspondence: real Invalidator, "
+    "sequential calls compared through clock brackets, concurrent callers checked by the block/overlap/spacing monitor.",
+    "sync.Mutex provides mutual exclusion (trusted); the clock is an input.",
+    "Lean 4 proof (induction over call sequences) + model/implementation correspondence", "DESIGN.md §6 C17")
+
 NOT_APPLICABLE = {}
-for _p in ["C01","C02","C03","C04","C05","C06","C08","C13","C14","C15","C16","C17"]:
+for _p in ["C01","C02","C03","C04","C05","C06","C08","C16"]:
     NOT_APPLICABLE[_p] = "check under construction in this round (model slice or theorem not yet committed); will be claimed when its check exists"
